@@ -6,8 +6,23 @@ import warnings
 
 from .lena_sequence import LenaSequence
 from .sequence import Sequence
-from .exceptions import LenaKeyError, LenaTypeError
+from .exceptions import LenaTypeError
 from .functions import flow_to_iter
+
+
+class _Tail(Sequence):
+    """Elements of a :class:`Source` after the first one.
+
+    It is used only to run the flow.
+    Static context is set by the *Source*, whose sequence
+    contains also elements with no data (like *SetContext*):
+    a context set from here would be computed without them
+    and could remain in elements that the *Source* does not update
+    (those after an unresolved key or with an empty context).
+    """
+
+    def _set_context(self, context):
+        pass
 
 
 class Source(LenaSequence):
@@ -58,14 +73,7 @@ class Source(LenaSequence):
             )
 
         if len(args) > 1:
-            self._tail = Sequence(*(self._data_seq[1:]))
-            # the tail has set static context of its elements
-            # without elements with no data (like SetContext).
-            # Set the context of the complete sequence again.
-            try:
-                self._set_context({})
-            except LenaKeyError:
-                pass
+            self._tail = _Tail(*(self._data_seq[1:]))
         else:
             self._tail = ()
 
